@@ -19,6 +19,13 @@ VARIABLES l,        \* next line
 vars == <<l, dict, opts, ws, cnt, memo>>
 
 On(p) == Prop = "ALL" \/ Prop = p
+(* clauses about tokenization results are also clauses of C08 while a user lexicon is loaded
+   (candidates and optimum as for the extended system lexicon) and of C06 once ids have been
+   remapped (same tokens, costs between mapped ids) *)
+OnTok(p) == \/ On(p)
+            \/ (Prop = "C08" /\ Len(dict.user) > 0)
+            \/ (Prop = "C06" /\ (dict.pl # IdPerm(dict.nl) \/ dict.pr # IdPerm(dict.nr)))
+AT(p, n, x) == IF ~OnTok(p) THEN TRUE ELSE IF x THEN TRUE ELSE Print(<<"FAILED-CLAUSE", Prop, n, l>>, FALSE)
 (* an asserted clause; a failing one is named on stdout (single path, so printed once) *)
 A(p, n, x) == IF ~On(p) THEN TRUE ELSE IF x THEN TRUE ELSE Print(<<"FAILED-CLAUSE", p, n, l>>, FALSE)
 
@@ -57,16 +64,16 @@ Tok == /\ Is("tok")
               T == STab(dict, s, DevAstralNul)
               toks == CoreSeq(E.toks)
           IN
-          /\ A("C01", "partition+fields", /\ PartitionOK(dict, opts, s, T, toks)
+          /\ AT("C01", "partition+fields", /\ PartitionOK(dict, opts, s, T, toks)
                       /\ \A i \in 1..Len(E.toks) : TokenFieldsOK(dict, s, E.toks[i]))
           /\ (Len(s) > 0 =>
-                /\ A("C03", "tokens-are-candidates", ChainOK(dict, opts, s, T, toks, 1, 0, 0))
-                /\ A("C02", "prefix-cost+optimal", /\ PrefixCostOK(dict, toks)
+                /\ AT("C03", "tokens-are-candidates", ChainOK(dict, opts, s, T, toks, 1, 0, 0))
+                /\ AT("C02", "prefix-cost+optimal", /\ PrefixCostOK(dict, toks)
                             /\ ChainTotal(dict, toks) = OptCost(dict, opts, s, T))
                 /\ ("lat" \in DOMAIN E =>
                       LET chk == LatticeCheck(dict, opts, s, T, E.lat) IN
-                      /\ A("C03", "lattice-candidate-bags", chk.cands)
-                      /\ A("C02", "lattice-node-minima", chk.mins)
+                      /\ AT("C03", "lattice-candidate-bags", chk.cands)
+                      /\ AT("C02", "lattice-node-minima", chk.mins)
                       /\ A("C04", "backtrace-is-result", WalkMatches(E.lat, toks))))
           /\ A("C04", "same-result-as-before", \A m \in memo : m[1] = s => m[2] = toks)     \* same result whatever preceded
           /\ ws' = [ws EXCEPT ![E.w] = [sent |-> s, tk |-> TRUE, top |-> toks]]
